@@ -21,6 +21,7 @@ EXPLANATION = (
     'arena reference that the cleanup action drops.  The stack switch itself (co_context) and continuation on exactly one thread '
     'as a runtime fact are NOT decided.')
 EXPLANATION += ' Added after the seeded-change rounds: ' + "D3 also: the owner's recall flag is raised (release) before the waiting-threads monitor is notified."
+EXPLANATION += ' Added in the third session (round-3 seeds and the findings they led to): ' + 'D5: a cancelled resume task still continues the suspended code (cancel() does what execute() does).'
 ASSUMPTIONS = ['__TBB_RESUMABLE_TASKS configuration (Linux)', 'co_context::resume switches stacks and returns when resumed']
 ND = ['the stack switch itself (co_context)', 'continuation on exactly one thread as a runtime fact']
 
